@@ -37,6 +37,8 @@ pub struct Spec {
     pub bin: Option<String>,
     /// seconds before the child is killed and reported as timed out (default 30)
     pub timeout_s: Option<u64>,
+    /// connect stdout to this file instead of a pipe (e.g. /dev/full: every write fails)
+    pub stdout_to: Option<String>,
 }
 
 pub const BASE_PATH: &str = "/usr/local/sbin:/usr/local/bin:/usr/sbin:/usr/bin:/sbin:/bin";
@@ -66,7 +68,15 @@ pub fn run(spec: &Spec) -> Out {
         cmd.current_dir(c);
     }
     // stdin: a pipe with the given content, or an empty pipe (never a terminal)
-    cmd.stdin(Stdio::piped()).stdout(Stdio::piped()).stderr(Stdio::piped());
+    cmd.stdin(Stdio::piped()).stderr(Stdio::piped());
+    match spec.stdout_to.as_ref().and_then(|p| std::fs::OpenOptions::new().write(true).open(p).ok()) {
+        Some(f) => {
+            cmd.stdout(f);
+        }
+        None => {
+            cmd.stdout(Stdio::piped());
+        }
+    }
     let mut child = match cmd.spawn() {
         Ok(c) => c,
         Err(e) => {
@@ -80,11 +90,13 @@ pub fn run(spec: &Spec) -> Out {
             let _ = s.write_all(&d);
         }
     });
-    let mut so = child.stdout.take().unwrap();
+    let so = child.stdout.take();
     let mut se = child.stderr.take().unwrap();
     let t1 = std::thread::spawn(move || {
         let mut v = Vec::new();
-        let _ = so.read_to_end(&mut v);
+        if let Some(mut so) = so {
+            let _ = so.read_to_end(&mut v);
+        }
         v
     });
     let t2 = std::thread::spawn(move || {
